@@ -25,9 +25,18 @@
 (* of Next here and vice versa (so this copy cannot drift), and that       *)
 (* IndInv holds in every reachable state of Semap!Spec.                    *)
 (*                                                                         *)
-(* Apalache:  Init => IndInv  and  IndInit /\ Next => IndInv'  with        *)
+(* Apalache:  Init => IndInv  and  IndInit /\ NextAtomic => IndInv'  with  *)
 (* --cinit=CInit (repaired rule) resp. CInitDev (pinned rule: the step     *)
-(* fails, non-vacuity witness).                                            *)
+(* fails, non-vacuity witness).  NextAtomic is the four critical sections  *)
+(* acq, rel, cwake, cresolve.  The ungated actions are, as written in      *)
+(* Semap.tla, compositions of these on the state record:                   *)
+(*   cancel = cwake ; cresolve        acqc = acq [; cwake ; cresolve]      *)
+(* (the guards of the later parts hold by construction), and every         *)
+(* intermediate record is a state of this module, so an invariant that is  *)
+(* preserved by the four is preserved by the six.  The step for the full   *)
+(* Next (six actions) also passes, in ~7 min (run by hand, see             *)
+(* extras/ind.md); the check uses NextAtomic to stay inside the time       *)
+(* budget of the thorough tier.                                            *)
 (***************************************************************************)
 EXTENDS Integers, FiniteSets, Apalache
 
